@@ -611,7 +611,7 @@ def run(w, rep, tier):
     rep.rule("C07.shepperd", "Shepperd selections return their pivot in slot order with the matching radicand sign pattern")
     rep.rule("C07.SIB", "SO3Dcm.from_Mrp, from_Mrp_alternative and SO3Mrp.to_Matrix denote the same matrix")
     rep.rule("C07.valid", "results are valid representatives: unit quaternions, orthonormal matrices, shadow-switched MRPs; the identity given as q = (-1,0,0,0) converts without a singular operation")
-    rep.rule("C07.euler", "Euler from_Matrix: asin in the pitch slot on every branch; both gimbal poles tested with a band of half width <= 1e-3 rad (test on the angle or on its sine); exact poles reproduce the matrix")
+    rep.rule("C07.euler", "Euler from_Matrix: asin in the pitch slot on every branch; both gimbal poles tested with a band of half width <= 1e-3 rad (test on the angle or on its sine); exact poles reproduce the matrix, and so does the limit of each pole branch approaching the pole inside the band; yaw and roll of the regular branch come from a two-argument arctangent")
     rep.rule("C07.flow", "conversions defined by composition are routed through the stated intermediate representation")
     check_pairs(w, rep, tier)
     check_space_fixed(w, rep, tier)
